@@ -50,7 +50,7 @@ def getg():
 '''
 
 SITES = '''def src():
-    return 'secret'
+    return object()
 def snk(v):
     return None
 def snk2(a, b):
